@@ -236,7 +236,8 @@ Section WithH.
     (* try: _digest(...) except NotImplementedError: raise BadAlgorithm *)
     do c <- unimplemented_is_badalg (digest new_wire k rd None rmac ctx multi);
     do _ <- ctx_verify c (t_mac rd);
-    maybe_start_digest k (t_mac rd) multi.
+    (* try: return _maybe_start_digest(...) except NotImplementedError: raise BadAlgorithm *)
+    unimplemented_is_badalg (maybe_start_digest k (t_mac rd) multi).
 
   (* the query validate puts to the keyed hash (hash, key, octets), when it gets that far;
      used by the correspondence to see that the harness supplied the digest for exactly the
